@@ -97,6 +97,13 @@ func verifC19Signals() {
 	verifrt.Observe("finished", r.nFin)
 	verifrt.Reach("hup-then-term", hupSent && pendingBeforeHup == 2 && r.nFin == len(r.msgs) && len(r.msgs) == 5)
 	verifrt.Reach("term-finishes-pending", !hupSent && pendingBeforeHup == 2 && r.nFin == len(r.msgs))
+	// a handler of go-nsq that is still busy hands over one more message after all that (Stop()
+	// only sends CLS; StopChan is closed at the latest 30 s later, handlers running or not). Nobody
+	// writes it any more, so nobody may finish it (the FIN oracle runs inside OnFinish).
+	finBefore := r.nFin
+	r.handle(a, r.newMessage(verifrt.BytesN("late", 1)))
+	r.stateCheck()
+	verifrt.Assert(r.nFin == finBefore, "message-handed-over-after-the-router-has-gone-is-not-finished")
 }
 
 // settleAll: every router and the discoverer loop are parked.
